@@ -4529,3 +4529,186 @@ func rulePANIC4(c *Ctx) []Ob {
 	}
 	return o.list
 }
+
+// ---------------------------------------------------------------- PANIC5
+
+// depPanics lists, for a dependency function called by an adapter, the explicit
+// panic sites in its own body (not in its callees).
+func (c *Ctx) depPanics(g *ssa.Function) []string {
+	if g == nil || g.Pkg == nil {
+		return nil
+	}
+	if len(g.Blocks) == 0 {
+		g.Pkg.Build()
+	}
+	var out []string
+	for _, b := range g.Blocks {
+		for _, in := range b.Instrs {
+			pn, ok := in.(*ssa.Panic)
+			if !ok || !pn.Pos().IsValid() {
+				continue
+			}
+			what := "a value"
+			for _, og := range origins(pn.X) {
+				if gl := globalLoad(og); gl != nil {
+					what = gl.Name()
+				}
+				if mi, ok := og.(*ssa.MakeInterface); ok {
+					if gl := globalLoad(mi.X); gl != nil {
+						what = gl.Name()
+					}
+					if k, ok := mi.X.(*ssa.Const); ok && k.Value != nil {
+						what = k.Value.ExactString()
+					}
+				}
+			}
+			out = append(out, what)
+		}
+	}
+	return out
+}
+
+// PANIC5: the store adapters do not walk into the explicit panics of their
+// backends. For every dependency function an adapter calls directly, the
+// explicit panic sites of that function's own body are listed; each must be
+// tied to a reason why the adapter cannot reach it, or to a guard in the
+// adapter. (badger's Txn.NewIterator panics with ErrDBClosed once the database
+// is closed, whereas every other entry point returns that error.)
+func rulePANIC5(c *Ctx) []Ob {
+	o := newObs(c, "PANIC5")
+	n := 0
+	seen := map[string]bool{}
+	for _, fn := range c.LibFuncs {
+		if !strings.HasPrefix(c.pkgRel(fn), "store/") {
+			continue
+		}
+		allCalls(fn, func(ci ssa.CallInstruction) {
+			g := staticCallee(ci)
+			if g == nil || c.IsLib(c.declared(g)) || g.Pkg == nil || !strings.Contains(g.Pkg.Pkg.Path(), ".") {
+				return
+			}
+			ps := c.depPanics(g)
+			if len(ps) == 0 {
+				return
+			}
+			full := calleeFullName(ci)
+			key := c.fname(fn) + "/" + shortCallee(ci) + " can panic"
+			if seen[key] {
+				return
+			}
+			seen[key] = true
+			n++
+			if tie, ok := depPanicTies[full]; ok {
+				// the guard named in the table must really be there
+				switch tie.guard {
+				case "@cursor-close":
+					if site := c.unclosedCursor(); site != "" {
+						o.add(VIOLATED, key, relPath(c, ci.Pos()), "%s panics (%s) and %s", full, tie.why, site)
+						return
+					}
+					o.add(OK, key, relPath(c, ci.Pos()), "panic sites %s: %s", strings.Join(ps, ", "), tie.why)
+					return
+				case "@no-strict-mode":
+					strict := ""
+					for _, f := range c.LibFuncs {
+						for _, b := range f.Blocks {
+							for _, in := range b.Instrs {
+								if st, ok := in.(*ssa.Store); ok {
+									if _, fld, n := fieldOfAddr(st.Addr); fld == "StrictMode" && n != nil {
+										strict = relPath(c, st.Pos())
+									}
+								}
+							}
+						}
+					}
+					if strict != "" {
+						o.add(VIOLATED, key, relPath(c, ci.Pos()), "%s: but StrictMode is assigned at %s", tie.why, strict)
+						return
+					}
+					o.add(OK, key, relPath(c, ci.Pos()), "panic sites %s: %s", strings.Join(ps, ", "), tie.why)
+					return
+				}
+				if tie.guard != "" {
+					guarded := false
+					for f := range c.staticReachWithCallers(fn) {
+						allCalls(f, func(cj ssa.CallInstruction) {
+							if strings.HasSuffix(calleeFullName(cj), tie.guard) {
+								guarded = true
+							}
+						})
+					}
+					if !guarded {
+						o.add(VIOLATED, key, relPath(c, ci.Pos()), "%s panics with %s (%s); the adapter does not establish the precondition (no call of %s on the way from Begin)", full, strings.Join(ps, ", "), tie.why, tie.guard)
+						return
+					}
+				}
+				o.add(OK, key, relPath(c, ci.Pos()), "panic sites %s: %s", strings.Join(ps, ", "), tie.why)
+				return
+			}
+			o.add(UNDECIDED, key, relPath(c, ci.Pos()), "%s contains explicit panic sites (%s) that no entry of the table accounts for", full, strings.Join(ps, ", "))
+		})
+	}
+	if n == 0 {
+		o.add(OK, "adapters", "-", "no dependency function called by an adapter has an explicit panic in its own body")
+	}
+	return o.list
+}
+
+type depPanicTie struct {
+	why   string
+	guard string // suffix of the full name of a call that must occur in the adapter (in the function or its transaction opener)
+}
+
+// depPanicTies: read in the dependency's source, one line each.
+var depPanicTies = map[string]depPanicTie{
+	"(*github.com/dgraph-io/badger/v4.Txn).Discard": {"panics when an iterator of the transaction is still open: every library function that obtains a store.Cursor defers its Close, and deferred calls run before the caller's deferred Rollback / before its Commit returns to the opener", "@cursor-close"},
+	"(*go.etcd.io/bbolt.Tx).Commit":                 {"asserts that the transaction is not a managed one (the adapter begins its transactions itself with DB.Begin) and panics on a failed consistency check only in StrictMode, which the adapter does not enable", "@no-strict-mode"},
+	"(*github.com/dgraph-io/badger/v4.Txn).NewIterator": {"panics with ErrDiscardedTxn on a discarded transaction (the adapter never uses a transaction after Commit/Rollback: TX2 commit-is-last) and with ErrDBClosed when the database has been closed: Begin must refuse a closed database", "badger/v4.DB).IsClosed"},
+}
+
+// staticReachWithCallers: fn, its static callees, and the adapter functions of the same package (the opener that
+// produced the receiver is one of them).
+func (c *Ctx) staticReachWithCallers(fn *ssa.Function) map[*ssa.Function]bool {
+	out := map[*ssa.Function]bool{}
+	for f := range c.staticReach(fn) {
+		out[f] = true
+	}
+	for _, f := range c.LibFuncs {
+		if c.pkgRel(f) == c.pkgRel(fn) {
+			out[f] = true
+		}
+	}
+	return out
+}
+
+
+// unclosedCursor: a library function that obtains a store.Cursor without deferring its Close.
+func (c *Ctx) unclosedCursor() string {
+	for _, fn := range c.LibFuncs {
+		if strings.HasPrefix(c.pkgRel(fn), "store") {
+			continue
+		}
+		bad := ""
+		allCalls(fn, func(ci ssa.CallInstruction) {
+			call, ok := ci.(*ssa.Call)
+			if !ok || !c.isInvokeOf(call, "store", "Tx", "Cursor") {
+				return
+			}
+			closed := false
+			for _, cv := range resultValues(call, 0) {
+				for _, r := range realReferrers(cv) {
+					if d, ok := r.(*ssa.Defer); ok && c.isInvokeOf(d, "store", "Cursor", "Close") {
+						closed = true
+					}
+				}
+			}
+			if !closed {
+				bad = c.fname(fn) + " obtains a cursor at " + relPath(c, call.Pos()) + " without deferring its Close"
+			}
+		})
+		if bad != "" {
+			return bad
+		}
+	}
+	return ""
+}
